@@ -63,12 +63,27 @@ def run_demo(d, outdir, n):
     """returns True when the demo passes (property holds)."""
     demo_diff = os.path.join(outdir, "demo%d.diff" % n)
     if os.path.exists(demo_diff):
+        # remember the state under test (the patch, if any), so that it can be put back after the demo is taken out again
+        keep = os.path.join(SCR, "under-test.diff")
+        sh("git diff > %s" % keep, cwd=d)
         rc, out = sh("git apply %s" % demo_diff, cwd=d)
+        if rc != 0:
+            # a demo that appends a test module to engine.rs, written before the hook function was added at its end: set the
+            # hook function aside, apply, put it back behind
+            ep = os.path.join(d, "src", "engine.rs")
+            txt = open(ep).read()
+            i = txt.rfind("\n// verification hook: the magnitude")
+            if i >= 0:
+                open(ep, "w").write(txt[:i])
+                rc, out = sh("git apply %s" % demo_diff, cwd=d)
+                open(ep, "a").write(txt[i:])
         if rc != 0:
             return None, "demo diff does not apply: " + out
         guard = "walleye_verif" in open(demo_diff).read()
         (res, passed, failed), out = suite(d, guard)
-        sh("git apply -R %s" % demo_diff, cwd=d)
+        sh("git reset -q && git checkout -- . && git clean -fdq -e Cargo.lock", cwd=d)
+        if os.path.getsize(keep) > 0:
+            sh("git apply %s" % keep, cwd=d)
         return (res == "ok" and failed == 0), "suite+demo: %s %d passed %d failed" % (res, passed, failed)
     for ext, runner in ((".sh", "bash"), (".py", "python3")):
         f = os.path.join(outdir, "demo%d%s" % (n, ext))
